@@ -101,7 +101,7 @@ def check(ctx):
             msg = "the state index handed down must be the loop counter over 0..states.len() of the automaton in the context"
         else:
             fsp = param_of_type(fn, "::StateIndex")
-            ok = bool(fsp) and bool(re.match(r"^\(Iterator@\w+::next\(IntoIterator@\w+::into_iter\((Deref@Oset::deref\()?param1\.(\w+)\.states\)?\[param%d\.0\]\.items\)\) as Some\)\.0$" % fsp[0], got))
+            ok = bool(fsp) and bool(re.match(r"^\(Iterator@\w+::next\(IntoIterator@\w+::into_iter\((?:slice::iter\()?(?:Deref@Oset::deref\()?(?:Deref@Oset::deref\()?param1\.(\w+)\.states\)?\[param%d\.0\]\.items\)?\)?\)\) as Some\)\.0$" % fsp[0], got))
             msg = "the item handed down must be the loop variable of an iteration over states[<own state parameter>].items of the automaton in the context"
         res.inst(FWD, key, c.where, True, got)
         if not ok:
